@@ -49,6 +49,9 @@ func (b *builder) add(at int64, format string, a ...any) int {
 }
 
 func (b *builder) line() string {
+	if len(b.ops) == 0 { // never emit an empty scenario
+		b.add(0, "get2 %%c k=i:1")
+	}
 	sort.SliceStable(b.ops, func(i, j int) bool { return b.ops[i].at < b.ops[j].at })
 	parts := make([]string, len(b.ops))
 	for i, o := range b.ops {
@@ -485,26 +488,26 @@ func gen(mode string) func(c *hx.Ctx) {
 		var phases []phase
 		switch mode {
 		case "C04":
-			genPure(c, w(2000, 40000))
+			genPure(c, w(8000, 100000))
 			phases = []phase{
-				{w(140, 6000), func() string { return genShare(c) }, "share"},
-				{w(80, 4000), func() string { return genRandom(c) }, "random"},
-				{w(20, 1000), func() string { return genSweep(c) }, "sweep"},
-				{w(3, 40), func() string { return genBurst(c, 2+c.Rng.Intn(4)) }, "burst"},
+				{w(2500, 30000), func() string { return genShare(c) }, "share"},
+				{w(1200, 20000), func() string { return genRandom(c) }, "random"},
+				{w(300, 5000), func() string { return genSweep(c) }, "sweep"},
+				{w(6, 100), func() string { return genBurst(c, 2+c.Rng.Intn(4)) }, "burst"},
 			}
 		case "C05":
 			genBoundary(c, emit)
 			phases = []phase{
-				{w(120, 8000), func() string { return genRandom(c) }, "random"},
-				{w(80, 5000), func() string { return genSweep(c) }, "sweep"},
-				{w(30, 1500), func() string { return genShare(c) }, "share"},
+				{w(2500, 50000), func() string { return genRandom(c) }, "random"},
+				{w(1500, 30000), func() string { return genSweep(c) }, "sweep"},
+				{w(600, 10000), func() string { return genShare(c) }, "share"},
 			}
 		default: // C06
 			phases = []phase{
-				{w(10, 150), func() string { return genBurst(c, 3+c.Rng.Intn(10)) }, "burst"},
-				{w(2, 40), func() string { return genBurst(c, 40) }, "burst40"},
-				{w(40, 2000), func() string { return genShare(c) }, "share"},
-				{w(40, 2000), func() string { return genRandom(c) }, "random"},
+				{w(60, 500), func() string { return genBurst(c, 3+c.Rng.Intn(10)) }, "burst"},
+				{w(4, 50), func() string { return genBurst(c, 40) }, "burst40"},
+				{w(150, 8000), func() string { return genShare(c) }, "share"},
+				{w(150, 8000), func() string { return genRandom(c) }, "random"},
 			}
 		}
 		for _, ph := range phases {
